@@ -278,12 +278,13 @@ def jobs_graph(tier, cyclic, prefix):
     for n in ((1, 2, 3) if quick else (1, 2, 3, 4)):
         ins = input_sets(n, quick)
         if n == 3 and quick:
-            ins = [['F0.txtpp'], ['F0.txtpp', 'F1.txtpp'], ['F2.txtpp', 'F0.txtpp'], ['.'], ['F1', 'F1.txtpp', 'F0.txtpp']]
+            ins = [['F0.txtpp'], ['F2.txtpp', 'F0.txtpp'], ['.']] if cyclic else \
+                  [['F0.txtpp'], ['F0.txtpp', 'F1.txtpp'], ['F2.txtpp', 'F0.txtpp'], ['.'], ['F1', 'F1.txtpp', 'F0.txtpp']]
         if n == 4:
             ins = [['F0.txtpp'], ['F0.txtpp', 'F2.txtpp'], ['.'], ['F3.txtpp', 'F0.txtpp']]
         for inp in ins:
             p = {'n': n, 'inputs': inp, 'acyclic_only': not cyclic, 'allow_self': cyclic}
-            if n == 4:
+            if n == 4 or (n == 3 and quick and cyclic):
                 p['max_deps'] = 2
             js.append({'name': '%s n=%d inputs=%s' % (prefix, n, ','.join(inp)), 'harness': (H, 'h_sched'), 'params': p,
                        'split': 16 if n >= 3 else 1, 'max_steps': 4_000_000})
@@ -306,8 +307,11 @@ def jobs_c03(tier):
                'params': {'n': 2, 'inputs': ['F0.txtpp', 'F1', '.'], 'mode': 'Clean'}})
     js.append({'name': 'dir scan non-recursive with subdir', 'harness': (H, 'h_sched'),
                'params': {'n': 2, 'inputs': ['.', '.'], 'acyclic_only': True, 'recursive': False, 'subdir': True}})
-    js.append({'name': 'dir scan recursive with subdir, dir named twice', 'harness': (H, 'h_sched'),
-               'params': {'n': 1, 'inputs': ['.', 'sub', '.'], 'acyclic_only': True, 'recursive': True, 'subdir': True}})
+    js.append({'name': 'dir scan recursive with subdir, sub-directory also named', 'harness': (H, 'h_sched'),
+               'params': {'n': 1, 'inputs': ['.', 'sub'], 'acyclic_only': True, 'recursive': True, 'subdir': True}, 'split': 16})
+    if tier != 'quick':
+        js.append({'name': 'dir scan recursive with subdir, dir named twice', 'harness': (H, 'h_sched'),
+                   'params': {'n': 1, 'inputs': ['.', 'sub', '.'], 'acyclic_only': True, 'recursive': True, 'subdir': True}, 'split': 16})
     return js
 
 
